@@ -4,7 +4,7 @@ c every RETE fire loop that calls a rule action carries an iteration bound."""
 from sa import analyses as A
 from sa.ir import strip, fmt_sym, walk
 from sa.facts import Broken
-from rules.C06 import _action_calls
+from rules.C06 import _action_calls, fired_bookkeeping_clause
 
 CONFIGS_QUICK = ["union", "default"]
 CONFIGS_THOROUGH = ["union", "default", "bc", "st"]
@@ -38,6 +38,7 @@ def run(P, R, tier, cfg):
     _ord(P, R)
     _pop_gates(P, R)
     _bookkeeping(P, R)
+    fired_bookkeeping_clause(P, R, "b")
     _fire_loops(P, R)
 
 
